@@ -10,7 +10,7 @@
 (*  "axes"  : [name, evals: <<[expect, out]>>]  exact axis evaluations     *)
 (*  every case: unchanged = 1 if no input array was modified by the call   *)
 (***************************************************************************)
-EXTENDS Controllers, F64, TraceIO
+EXTENDS Controllers, F64, Dyadic, TraceIO
 VARIABLE tid
 
 Poly(c) ==
@@ -35,12 +35,41 @@ Lorenz(c) == IF \E k \in 1..Len(c.evals) : LET e == c.evals[k] IN
                   \/ e.out[2] # 28 * e.x - e.y - e.x * e.z + e.c
                   \/ 3 * e.out[3] # 3 * e.x * e.y - 8 * e.z
              THEN {"lorenz-equations"} ELSE {}
+\* Stuart-Landau and the coupled oscillators on INTEGER states, recomputed exactly in fixed point (Dyadic)
+\* out values are signed fixed-point records (exact images of the doubles the code returned)
+SLExpect(e) ==
+  LET r == e.s[1] * e.s[1] + e.s[2] * e.s[2]
+      sigma == DSub(D01, DInt(r))
+  IN <<DSub(DMulInt(sigma, e.s[1]), DInt(e.s[2])), DAdd(DMulInt(sigma, e.s[2]), DInt(e.s[1] + e.c))>>
+AbsI(v) == IF v < 0 THEN -v ELSE v
+SLTerms(e) == DAbs(DInt((AbsI(e.s[1]) + AbsI(e.s[2])) * (1 + e.s[1] * e.s[1] + e.s[2] * e.s[2]) + AbsI(e.c) + 1))
+StuartLandau(c) == IF ~ConstantsOK THEN {"spec-constants"}
+  ELSE IF \E k \in 1..Len(c.evals) : LET e == c.evals[k] x == SLExpect(e) IN
+            ~DClose(e.out[1], x[1], SLTerms(e)) \/ ~DClose(e.out[2], x[2], SLTerms(e))
+       THEN {"stuart-landau-equations"} ELSE {}
+OscExpect(e) ==
+  LET a == e.s
+      r1 == a[1] * a[1] + a[2] * a[2]  r2 == a[3] * a[3] + a[4] * a[4]  r3 == a[5] * a[5] + a[6] * a[6]
+      s1 == (-r1) + r2 - r3
+      sg2 == DSub(D01, DInt(r2))
+      sg3 == SNeg(D01)
+  IN <<DInt(s1 * a[1] - a[2]), DInt(s1 * a[2] + a[1]),
+       DSub(DMulInt(sg2, a[3]), DMulInt(DPi, a[4])),
+       DAdd(DAdd(DMulInt(sg2, a[4]), DMulInt(DPi, a[3])), DInt(e.c)),
+       DSub(DMulInt(sg3, a[5]), DMulInt(DPi2, a[6])),
+       DAdd(DAdd(DMulInt(sg3, a[6]), DMulInt(DPi2, a[5])), DInt(e.c))>>
+OscTerms(e) == LET m == 1 + AbsI(e.s[1]) + AbsI(e.s[2]) + AbsI(e.s[3]) + AbsI(e.s[4]) + AbsI(e.s[5]) + AbsI(e.s[6]) IN
+               DAbs(DInt(m * m * m * 12 + AbsI(e.c)))
+Oscillators(c) == IF ~ConstantsOK THEN {"spec-constants"}
+  ELSE IF \E k \in 1..Len(c.evals) : LET e == c.evals[k] x == OscExpect(e) IN
+            \E j \in 1..6 : ~DClose(e.out[j], x[j], OscTerms(e))
+       THEN {"coupled-oscillator-equations"} ELSE {}
 Axes(c) == IF \E k \in 1..Len(c.evals) : c.evals[k].expect # c.evals[k].out THEN {"equations:" \o c.name} ELSE {}
 
 Verdict(c) ==
   (CASE c.kind = "poly" -> Poly(c) [] c.kind = "plin" -> PLin(c) [] c.kind = "peaks" -> Peaks(c)
      [] c.kind = "ann" -> Ann(c) [] c.kind = "range" -> Range(c) [] c.kind = "lorenz" -> Lorenz(c)
-     [] c.kind = "axes" -> Axes(c))
+     [] c.kind = "axes" -> Axes(c) [] c.kind = "sl" -> StuartLandau(c) [] c.kind = "osc" -> Oscillators(c))
   \cup (IF c.unchanged # 1 THEN {"inputs-modified"} ELSE {})
 Init == tid = 0
 Next == /\ tid < NCases /\ tid' = tid + 1
